@@ -1028,11 +1028,29 @@ func ruleValidPatterns(c *Ctx) {
 			c.inst(1)
 			args := callArgs(call.Common())
 			var fld *types.Var
-			switch x := args[1].(type) {
-			case *ssa.Field:
-				fld = x.X.Type().Underlying().(*types.Struct).Field(x.Field)
-			default:
-				fld, _ = fieldLoad(args[1])
+			var findFld func(v ssa.Value, d int)
+			findFld = func(v ssa.Value, d int) {
+				if fld != nil || d > 2 {
+					return
+				}
+				switch x := v.(type) {
+				case *ssa.Field:
+					if f := x.X.Type().Underlying().(*types.Struct).Field(x.Field); f == fRes || f == fAcc {
+						fld = f
+					}
+				case *ssa.Call:
+					// the pattern list parsed on the way in (parseResourcePatterns(r.Resources))
+					for _, a := range x.Call.Args {
+						findFld(a, d+1)
+					}
+				default:
+					if f, _ := fieldLoad(v); f != nil && (f == fRes || f == fAcc) {
+						fld = f
+					}
+				}
+			}
+			for _, a := range args[1:] {
+				findFld(a, 0)
 			}
 			target := ""
 			mRes := p.Method("rescache.EventSubscription.handleResetResource")
